@@ -339,6 +339,14 @@ def run(ctx):
                             if label == "lazy read":
                                 ways.append(("iteration over chunk[:] of data_chunks()", lambda: [t for ck in c.data_chunks() for t in ck[:]]))
                                 ways.append(("integer indexing", lambda: [c[k] for k in range(len(c))]))
+                            def index_then_slices():
+                                arr = c[:] if label != "lazy read" else c.read_data()
+                                if len(arr) < 3:
+                                    return list(arr)
+                                first = arr[0]                   # a single item first ...
+                                part, rev = arr[2:], arr[::-1]    # ... then slices of the same array, taken item by item
+                                return [first, arr[1]] + [part[j] for j in range(len(part))] if [rev[j] for j in range(len(rev))][::-1] == [arr[j] for j in range(len(arr))] else ["reversed slice differs"]
+                            ways.append(("item access followed by slices", index_then_slices))
                             for wl, wf in ways:
                                 try:
                                     one = [struct.pack("<Qq", int(t.second_fractions), int(t.seconds)).hex() for t in wf()]
